@@ -92,6 +92,18 @@ func genC04(t *rapid.T) C04Case {
 	c.Seq = rapid.OneOf(rapid.Uint32(), rapid.SampledFrom([]uint32{0, 1, 1<<31 - 1, 1 << 31, 1<<32 - 1, 1 << 24})).Draw(t, "seq")
 	toks := rapid.SliceOfN(rapid.SampledFrom(hostileTokens), 0, 6).Draw(t, "body")
 	c.Body = []byte(strings.Join(toks, " "))
+	if rapid.IntRange(0, 3).Draw(t, "rawbytes") == 0 {
+		// "arbitrary bodies": any byte but the line terminator, the separators other log formats use among them
+		// (0x1d in front of auditd's interpreted fields, NUL, escape, DEL, high bytes)
+		junk := rapid.SliceOfN(rapid.OneOf(rapid.SampledFrom([]byte{0x1d, 0x1e, 0x1f, 0x00, 0x1b, 0x7f, 0x0b, 0x0c, 0x0d, 0x09, 0x01, 0xff, 0x80, 0xc2, 0x85, 0xa0}), rapid.Byte()), 1, 8).Draw(t, "junk")
+		for i := range junk {
+			if junk[i] == '\n' {
+				junk[i] = '_'
+			}
+		}
+		pos := rapid.IntRange(0, len(c.Body)).Draw(t, "junkpos")
+		c.Body = append(append(append([]byte(nil), c.Body[:pos]...), junk...), c.Body[pos:]...)
+	}
 	c.Sep = rapid.SampledFrom([]string{": ", ": ", ":", " ", ""}).Draw(t, "sep")
 	if len(c.Body) == 0 {
 		c.Sep = rapid.SampledFrom([]string{":", ""}).Draw(t, "sep2")
